@@ -1719,6 +1719,42 @@ def _flat_at(e):
     return None
 
 
+_REDUCE = ('max', 'amax', 'nanmax', 'min', 'amin', 'nanmin', 'mean', 'nanmean', 'sum', 'nansum', 'median', 'norm',
+           'argmax', 'nanargmax', 'argmin', 'ptp')
+
+
+def _reduction(e):
+    """The reduced expression if e is an independent reduction (A.max(), np.max(A), np.linalg.norm(A) ...)."""
+    if isinstance(e, ast.Call) and astx.callee_attr(e) in _REDUCE:
+        r = astx.receiver(e)
+        if e.args and (r is None or astx.path(r) in ('np', 'numpy', 'np.linalg', 'numpy.linalg')):
+            return e.args[0]
+        if r is not None and not e.args:
+            return r
+    return None
+
+
+def _abs_diff_at(e, x, ref):
+    """Index expressions used by |x - ref| written entry-wise: abs((x-ref).flat[i]) or abs(x.flat[i] - ref.flat[j]).
+
+    Returns a list of index expressions, or None if e is not of that form.
+    """
+    inner = abs_arg(e)
+    if inner is None:
+        return None
+    fa = _flat_at(inner)
+    if fa is not None and isinstance(fa[0], ast.BinOp) and isinstance(fa[0].op, ast.Sub) and \
+            isinstance(fa[0].left, ast.Name) and isinstance(fa[0].right, ast.Name) and \
+            {fa[0].left.id, fa[0].right.id} == {x, ref}:
+        return [fa[1]]
+    if isinstance(inner, ast.BinOp) and isinstance(inner.op, ast.Sub):
+        a, b = _flat_at(inner.left), _flat_at(inner.right)
+        if a is not None and b is not None and isinstance(a[0], ast.Name) and isinstance(b[0], ast.Name) and \
+                {a[0].id, b[0].id} == {x, ref}:
+            return [a[1], b[1]]
+    return None
+
+
 def _tol_term(e, atol, rtol, ref, x):
     """'ok' | ('bad', why) | None for the expression atol + rtol * abs(ref)."""
     if not (isinstance(e, ast.BinOp) and isinstance(e.op, ast.Add)):
@@ -1776,8 +1812,28 @@ def tolviol(repo, out):
     out.ok(fn, R, f'all {len(rets)} returns have {len(POS)} elements')
     # the violation array taken at its argmax
     f0 = _flat_at(e[0])
+    red0 = _reduction(e[0])
+    if f0 is None and red0 is not None and astx.callee_attr(e[0]) in ('max', 'amax') and \
+            isinstance(red0, ast.BinOp) and isinstance(red0.op, ast.Sub):
+        # `diff.max()` is the violation at its argmax; the index is the one the other slots use
+        cand = [q for q in ast.walk(ast.Tuple(elts=list(e[1:]), ctx=ast.Load())) if isinstance(q, ast.Call) and
+                astx.callee_attr(q) == 'argmax']
+        amaxes = [q for q in cand if K(q.args[0] if q.args else astx.receiver(q)) == K(red0)]
+        if not amaxes:
+            if cand:
+                out.bad(fn, R, f'the other results are taken at `{astx.src(cand[0])}`, not at the entry of the maximal '
+                        'violation that is reported as result #0', key='viol-index')
+            else:
+                out.unsure(fn, R, 'no arg-max index of the violation found')
+            return
+        f0 = (red0, amaxes[0])
     if f0 is None or not (isinstance(f0[0], ast.BinOp) and isinstance(f0[0].op, ast.Sub)):
-        out.unsure(fn, R, f'result #0 is not `(abs_error - tolerance)` taken at an index: {astx.src(R.value.elts[0])}')
+        if red0 is not None:
+            out.bad(fn, R, f'result #0 (max violation) is the independent reduction `{astx.src(e[0])}`, not the '
+                    'violation at the reported entry', key='viol-index')
+        else:
+            out.unsure(fn, R, f'result #0 is not `(abs_error - tolerance)` taken at an index: '
+                       f'{astx.src(R.value.elts[0])}')
         return
     diff, idx = f0
     if not (isinstance(idx, ast.Call) and astx.callee_attr(idx) == 'argmax'):
@@ -1813,111 +1869,153 @@ def tolviol(repo, out):
         out.bad(fn, R, t[1], key='tolerance-term')
         return
     out.ok(fn, R, f'#0 max violation = (|{x}-{ref}| - (atol + rtol*|{ref}|)) at its argmax')
-    fa = _flat_at(e[3])
-    if fa is None:
-        out.unsure(fn, R, f'result #3 (abs error) is not taken at an index: {astx.src(R.value.elts[3])}')
-        return
-    if K(fa[0]) != K(abs_err):
-        out.bad(fn, R, f'the reported abs error is taken from `{astx.src(fa[0])}`, the violation is computed from '
-                f'`{astx.src(abs_err)}`', key='abs-operands')
-        return
-    if K(fa[1]) != K(idx):
-        out.bad(fn, R, 'the reported abs error is taken at another index than the reported max violation and values',
-                key='abs-index')
-        return
-    out.ok(fn, R, f'#3 abs error = |{x} - {ref}| at the same index')
-    # values at the index, in (x, ref) order
     v = e[1]
-    if not (isinstance(v, ast.Tuple) and len(v.elts) == 2):
-        out.unsure(fn, R, 'result #1 is not a pair')
-        return
-    pair = [_flat_at(q) for q in v.elts]
-    if any(p is None or not isinstance(p[0], ast.Name) for p in pair):
-        out.unsure(fn, R, 'result #1 is not (x.flat[i], ref.flat[i])')
-        return
-    if any(K(p[1]) != K(idx) for p in pair):
-        out.bad(fn, R, 'the values reported "at max error" are taken at another index than the reported errors',
-                key='vals-index')
-        return
-    got = (pair[0][0].id, pair[1][0].id)
-    if got == (ref, x):
-        out.bad(fn, R, f'values at max error are returned as ({ref}, {x}); every report prints element 0 as the '
-                'analytic and element 1 as the approximated value', key='vals-order')
-        return
-    if got != (x, ref):
-        out.bad(fn, R, f'values at max error are taken from {got}, not from ({x}, {ref})', key='vals-order')
-        return
-    out.ok(fn, R, f'#1 = ({x}, {ref}) at the same index')
-    # above tolerance
-    a = e[2]
-    cond = None
-    if isinstance(a, ast.Call) and astx.callee_attr(a) == 'any':
-        cond = a.args[0] if a.args else astx.receiver(a)
-    if not (isinstance(cond, ast.Compare) and len(cond.ops) == 1):
-        out.unsure(fn, R, f'result #2 is not any(<comparison>): {astx.src(R.value.elts[2])}')
-        return
-    kc = K(cond)
-    if kc[1] == K(ast.Constant(value=0)) and kc[3] == K(diff) and kc[2] == 'Lt':
-        out.ok(fn, R, '#2 above tolerance = any(violation > 0)')
-    elif kc[1] == K(ast.Constant(value=0)) and kc[3] == K(diff) and kc[2] == 'LtE':
-        out.bad(fn, R, 'an error exactly on the tolerance is reported as a violation (documented inequality is '
-                'abs(err) <= atol + rtol*abs(ref))', key='above-compare')
-        return
-    elif kc[3] == K(ast.Constant(value=0)) and kc[1] == K(diff):
-        out.bad(fn, R, 'the above-tolerance flag is inverted (violation < 0)', key='above-compare')
-        return
-    elif K(diff) not in (kc[1], kc[3]):
-        out.bad(fn, R, f'the above-tolerance flag is computed from `{astx.src(cond)}`, not from the violation array',
-                key='above-compare')
-        return
-    else:
-        out.unsure(fn, R, f'above-tolerance comparison `{astx.src(cond)}` not recognised')
-        return
-    # relative error
-    r = R.value.elts[4]
-    vals = []
-    if isinstance(r, ast.Name):
-        for dn in ctx.rd.defs(at, r.id):
-            if dn.kind == 'stmt' and isinstance(dn.ast, ast.Assign):
-                vals.append((ctx.inline(dn.ast.value, dn), dn))
-            else:
-                vals.append((None, dn))
-    else:
-        vals.append((e[4], at))
-    okr = 0
-    for vv, dn in vals:
-        if vv is None:
-            out.unsure(fn, R, 'relative error has an unrecognised definition')
+
+    def slot_abs():
+        fa = _flat_at(e[3])
+        entrywise = _abs_diff_at(e[3], x, ref)
+        if entrywise is not None:
+            if any(K(i) != K(idx) for i in entrywise):
+                out.bad(fn, R, 'the reported abs error is taken at another index than the reported max violation and '
+                        'values', key='abs-index')
+                return
+        elif _reduction(e[3]) is not None or fa is None and _reduction(abs_arg(e[3]) or e[3]) is not None:
+            out.bad(fn, R, f'the reported abs error is the independent reduction `{astx.src(R.value.elts[3])}` = '
+                    f'`{astx.src(e[3])}`, not |{x} - {ref}| at the entry of the maximal tolerance violation whose values '
+                    'and violation are reported with it (the entries differ as soon as rtol > 0)', key='abs-index')
             return
-        if isinstance(vv, ast.BinOp) and isinstance(vv.op, ast.Div):
-            if K(vv.left) != K(e[3]):
-                out.bad(fn, dn.ast, f'the relative error divides `{astx.src(vv.left)}`, not the reported abs error',
-                        key='rel-numerator')
-                return
-            den = abs_arg(vv.right)
-            if den is None:
-                out.bad(fn, dn.ast, 'the relative error is divided by a signed value: it is negative for a negative '
-                        'reference', key='rel-denominator')
-                return
-            if K(den) == K(v.elts[1]):
-                okr += 1
-            elif K(den) == K(v.elts[0]):
-                out.bad(fn, dn.ast, f'the relative error is relative to `{x}` (the tested value), not to `{ref}`',
-                        key='rel-denominator')
-                return
-            else:
-                out.unsure(fn, dn.ast, f'denominator `{astx.src(den)}` not recognised')
-                return
-        elif astx.path(vv) in ('np.inf', 'numpy.inf', 'inf', 'math.inf') or \
-                (isinstance(vv, ast.Call) and astx.callee_attr(vv) == 'float'):
-            continue
+        elif fa is None:
+            out.unsure(fn, R, f'result #3 (abs error) is not taken at an index: {astx.src(R.value.elts[3])}')
+            return
+        elif K(fa[0]) != K(abs_err):
+            out.bad(fn, R, f'the reported abs error is taken from `{astx.src(fa[0])}`, the violation is computed from '
+                    f'`{astx.src(abs_err)}`', key='abs-operands')
+            return
+        elif K(fa[1]) != K(idx):
+            out.bad(fn, R, 'the reported abs error is taken at another index than the reported max violation and values',
+                    key='abs-index')
+            return
+        out.ok(fn, R, f'#3 abs error = |{x} - {ref}| at the same index')
+
+    def slot_vals():
+        # values at the index, in (x, ref) order
+        v = e[1]
+        if not (isinstance(v, ast.Tuple) and len(v.elts) == 2):
+            out.unsure(fn, R, 'result #1 is not a pair')
+            return
+        pair = [_flat_at(q) for q in v.elts]
+        reds = [q for q in v.elts if _reduction(q) is not None or
+                (abs_arg(q) is not None and _reduction(abs_arg(q)) is not None)]
+        if reds:
+            out.bad(fn, R, f'a value reported "at max error" is the independent reduction `{astx.src(reds[0])}`, not the '
+                    'entry at the index of the maximal violation', key='vals-index')
+            return
+        if any(p is None or not isinstance(p[0], ast.Name) for p in pair):
+            out.unsure(fn, R, 'result #1 is not (x.flat[i], ref.flat[i])')
+            return
+        if any(K(p[1]) != K(idx) for p in pair):
+            out.bad(fn, R, 'the values reported "at max error" are taken at another index than the reported errors',
+                    key='vals-index')
+            return
+        got = (pair[0][0].id, pair[1][0].id)
+        if got == (ref, x):
+            out.bad(fn, R, f'values at max error are returned as ({ref}, {x}); every report prints element 0 as the '
+                    'analytic and element 1 as the approximated value', key='vals-order')
+            return
+        if got != (x, ref):
+            out.bad(fn, R, f'values at max error are taken from {got}, not from ({x}, {ref})', key='vals-order')
+            return
+        out.ok(fn, R, f'#1 = ({x}, {ref}) at the same index')
+
+    def slot_above():
+        # above tolerance
+        a = e[2]
+        cond = None
+        if isinstance(a, ast.Call) and astx.callee_attr(a) == 'any':
+            cond = a.args[0] if a.args else astx.receiver(a)
+        if not (isinstance(cond, ast.Compare) and len(cond.ops) == 1):
+            out.unsure(fn, R, f'result #2 is not any(<comparison>): {astx.src(R.value.elts[2])}')
+            return
+        kc = K(cond)
+        if kc[1] == K(ast.Constant(value=0)) and kc[3] == K(diff) and kc[2] == 'Lt':
+            out.ok(fn, R, '#2 above tolerance = any(violation > 0)')
+        elif kc[1] == K(ast.Constant(value=0)) and kc[3] == K(diff) and kc[2] == 'LtE':
+            out.bad(fn, R, 'an error exactly on the tolerance is reported as a violation (documented inequality is '
+                    'abs(err) <= atol + rtol*abs(ref))', key='above-compare')
+            return
+        elif kc[3] == K(ast.Constant(value=0)) and kc[1] == K(diff):
+            out.bad(fn, R, 'the above-tolerance flag is inverted (violation < 0)', key='above-compare')
+            return
+        elif K(diff) not in (kc[1], kc[3]):
+            out.bad(fn, R, f'the above-tolerance flag is computed from `{astx.src(cond)}`, not from the violation array',
+                    key='above-compare')
+            return
         else:
-            out.unsure(fn, dn.ast, f'relative error `{astx.src(vv)}` not recognised')
+            out.unsure(fn, R, f'above-tolerance comparison `{astx.src(cond)}` not recognised')
             return
-    if okr:
-        out.ok(fn, R, f'#4 rel error = #3 / |{ref} at the index|')
-    else:
-        out.unsure(fn, R, 'no division found for the relative error')
+
+    def slot_rel():
+        # relative error
+        if not (isinstance(v, ast.Tuple) and len(v.elts) == 2):
+            out.unsure(fn, R, 'relative error cannot be related to the value pair (#1 is not a pair)')
+            return
+        r = R.value.elts[4]
+        vals = []
+        if isinstance(r, ast.Name):
+            for dn in ctx.rd.defs(at, r.id):
+                if dn.kind == 'stmt' and isinstance(dn.ast, ast.Assign):
+                    vals.append((ctx.inline(dn.ast.value, dn), dn))
+                else:
+                    vals.append((None, dn))
+        else:
+            vals.append((e[4], at))
+        okr = 0
+        for vv, dn in vals:
+            if vv is None:
+                out.unsure(fn, R, 'relative error has an unrecognised definition')
+                return
+            if isinstance(vv, ast.BinOp) and isinstance(vv.op, ast.Div):
+                if K(vv.left) != K(e[3]):
+                    out.bad(fn, dn.ast, f'the relative error divides `{astx.src(vv.left)}`, not the reported abs error',
+                            key='rel-numerator')
+                    return
+                den = abs_arg(vv.right)
+                if den is None:
+                    out.bad(fn, dn.ast, 'the relative error is divided by a signed value: it is negative for a negative '
+                            'reference', key='rel-denominator')
+                    return
+                dfa = _flat_at(den)
+                if K(den) == K(v.elts[1]):
+                    okr += 1
+                elif dfa is not None and isinstance(dfa[0], ast.Name) and dfa[0].id == ref and K(dfa[1]) != K(idx):
+                    out.bad(fn, dn.ast, f'the relative error divides by `{ref}` at another index than the reported entry',
+                            key='rel-denominator')
+                    return
+                elif K(den) == K(v.elts[0]):
+                    out.bad(fn, dn.ast, f'the relative error is relative to `{x}` (the tested value), not to `{ref}`',
+                            key='rel-denominator')
+                    return
+                else:
+                    out.unsure(fn, dn.ast, f'denominator `{astx.src(den)}` not recognised')
+                    return
+            elif astx.path(vv) in ('np.inf', 'numpy.inf', 'inf', 'math.inf') or \
+                    (isinstance(vv, ast.Call) and astx.callee_attr(vv) == 'float'):
+                continue
+            elif _reduction(vv) is not None:
+                out.bad(fn, dn.ast, f'the relative error is the independent reduction `{astx.src(vv)}`, not the abs error '
+                        f'reported as #3 divided by |{ref}| at the same entry', key='rel-numerator')
+                return
+            else:
+                out.unsure(fn, dn.ast, f'relative error `{astx.src(vv)}` not recognised')
+                return
+        if okr:
+            out.ok(fn, R, f'#4 rel error = #3 / |{ref} at the index|')
+        else:
+            out.unsure(fn, R, 'no division found for the relative error')
+
+    # every slot is decided on its own so that one wrong slot does not hide the others
+    for check in (slot_abs, slot_vals, slot_above, slot_rel):
+        check()
 
 
 # =========================================================================== C13.tols
@@ -2674,6 +2772,14 @@ selftest(
     Mutant('labels-compact-totals-swapped', DISP, "calc_abs_val_fd = abs_val.reverse[1]\n                    calc_abs_val = abs_val.reverse[0]", "calc_abs_val_fd = abs_val.reverse[0]\n                    calc_abs_val = abs_val.reverse[1]", 'C13.labels'),
     Mutant('labels-compact-header-swapped', DISP, "'fwd val @ max viol', 'rev val @ max viol', '(fwd-rev) - (a + r*rev)'", "'rev val @ max viol', 'fwd val @ max viol', '(rev-fwd) - (a + r*fwd)'", 'C13.labels'),
     Mutant('labels-compact-wrong-violation-column', DISP, "abs_val.reverse[0], abs_val.reverse[1],\n                                       _print_tv(tol_violation.reverse),", "abs_val.reverse[0], abs_val.reverse[1],\n                                       _print_tv(tol_violation.fwd_rev),", 'C13.labels'),
+    Mutant('tolviol-seed-abs-error-global-max', ARR, 'abs_at_max = abs_error.flat[max_error_idx]', 'abs_at_max = abs_error.max()', 'C13.tolviol'),
+    Mutant('tolviol-abs-error-np-max', ARR, 'abs_at_max = abs_error.flat[max_error_idx]', 'abs_at_max = np.max(np.abs(x - ref))', 'C13.tolviol'),
+    Mutant('tolviol-rel-error-global-max', ARR, 'rel_at_max = abs_at_max / np.abs(max_error_ref)', 'rel_at_max = np.max(abs_error / np.abs(ref))', 'C13.tolviol'),
+    Mutant('tolviol-rel-numerator-global-max', ARR, 'rel_at_max = abs_at_max / np.abs(max_error_ref)', 'rel_at_max = abs_error.max() / np.abs(max_error_ref)', 'C13.tolviol'),
+    Mutant('tolviol-value-global-max', ARR, 'max_error_x = x.flat[max_error_idx]', 'max_error_x = np.abs(x).max()', 'C13.tolviol'),
+    Mutant('tolviol-violation-not-at-index', ARR, 'max_error = diff.flat[max_error_idx]', 'max_error = diff.mean()', 'C13.tolviol'),
+    Mutant('tolviol-entrywise-abs-other-index', ARR, '    abs_at_max = abs_error.flat[max_error_idx]\n',
+           '    j = np.argmax(abs_error)\n    abs_at_max = np.abs(x.flat[j] - ref.flat[j])\n', 'C13.tolviol'),
     Mutant('tolviol-signed-error', ARR, 'abs_error = np.abs(x - ref)', 'abs_error = x - ref', 'C13.tolviol'),
     Mutant('tolviol-difference-of-magnitudes', ARR, 'abs_error = np.abs(x - ref)', 'abs_error = np.abs(x) - np.abs(ref)', 'C13.tolviol'),
     Mutant('iter-delete-declared-pair', SYSTEM, '        if key in nondep_derivs and not above_tol:\n            del derivatives[key]\n            continue',
@@ -2685,11 +2791,6 @@ selftest(
     Mutant('prefix-schema-diagonal-no-threshold', SUBJAC, _DIAG_INIT, _DIAG_INIT.replace("                    self.info['uncovered_threshold'] = uncovered_threshold\n", ''), 'C13.schema'),
     Mutant('prefix-fresh-outer-copy-only', DJAC, _SETUP, '        self._subjacs_info = self._subjacs_info.copy()\n', 'C13.fresh'),
     Mutant('prefix-snapshot-outer-copy-only', DJAC, _SETUP, '        self._subjacs_info = self._subjacs_info.copy()\n', 'C13.snapshot'),
-    Mutant('prefix-labels-long-fwd-rev', DISP, 'tol_violation_str("Jfwd", "Jrev")', 'tol_violation_str("Jrev", "Jfwd")', 'C13.labels',
-           also=[(DISP, "fwd value @ max viol: {vals_at_max_err[0].fwd_rev[0]", "rev value @ max viol: {vals_at_max_err[0].fwd_rev[0]"),
-                 (DISP, "rev value @ max viol: {vals_at_max_err[0].fwd_rev[1]", "fwd value @ max viol: {vals_at_max_err[0].fwd_rev[1]")]),
-    Mutant('labels-long-only-values-swapped', DISP, "fwd value @ max viol: {vals_at_max_err[0].fwd_rev[0]", "rev value @ max viol: {vals_at_max_err[0].fwd_rev[0]", 'C13.labels',
-           also=[(DISP, "rev value @ max viol: {vals_at_max_err[0].fwd_rev[1]", "fwd value @ max viol: {vals_at_max_err[0].fwd_rev[1]")]),
     # ---- half repairs and other shapes of the same two defects
     Mutant('fresh-no-copy-at-all', DJAC, _SETUP, '', 'C13.fresh'),
     Mutant('fresh-copy-not-assigned-back', DJAC, _SETUP, _SETUP.replace('        self._subjacs_info = subjacs_info\n', ''), 'C13.fresh'),
@@ -2729,6 +2830,13 @@ selftest(
     Twin('twin-tolviol-renamed-reordered', ARR,
          "    abs_error = np.abs(x - ref)\n    if abs_error.size == 0:\n        return 0.0, (0, 0), False, 0.0, 0.0\n\n    mixed_atol_rtol = atol + rtol * np.abs(ref)\n    diff = abs_error - mixed_atol_rtol  # any values > 0 violate tolerance check\n",
          "    err = np.abs(ref - x)\n    if err.size == 0:\n        return 0.0, (0, 0), False, 0.0, 0.0\n\n    diff = err - (np.abs(ref) * rtol + atol)\n    abs_error = err\n"),
+    Twin('twin-labels-long-fwd-rev-relabelled', DISP, 'tol_violation_str("Jrev", "Jfwd")', 'tol_violation_str("Jfwd", "Jrev")',
+         also=[(DISP, "rev value @ max viol: {vals_at_max_err[0].fwd_rev[0]", "fwd value @ max viol: {vals_at_max_err[0].fwd_rev[0]"),
+               (DISP, "fwd value @ max viol: {vals_at_max_err[0].fwd_rev[1]", "rev value @ max viol: {vals_at_max_err[0].fwd_rev[1]")]),
+    Twin('twin-tolviol-index-temporary-entrywise-abs', ARR,
+         '    abs_at_max = abs_error.flat[max_error_idx]\n',
+         '    i = max_error_idx\n    diff_at_idx = x.flat[i] - ref.flat[i]\n    abs_at_max = np.abs(diff_at_idx)\n'),
+    Twin('twin-tolviol-max-of-violation', ARR, '    max_error = diff.flat[max_error_idx]\n', '    max_error = diff.max()\n'),
     Twin('twin-tolviol-flipped-compare', ARR, 'np.any(diff > 0.)', 'np.any(0 < diff)'),
     Twin('twin-slots-or-assignment', SYSTEM, _TV_REV + '\n                above_tol |= above', _TV_REV + '\n                above_tol = above_tol or above'),
     Twin('twin-slots-temporaries', SYSTEM, _TV_REV, 'tv, vals, above, abs_errs.reverse, rel_errs.reverse = \\\n                    get_tol_violation(Jreverse, Jfd, atol, rtol)\n                errs.reverse = tv\n                err_vals.reverse = vals'),
